@@ -686,6 +686,26 @@ func Execute(s *Scenario, dir string) (res *Result) {
 			return
 		}
 	}
+	// A single honest peer and nothing scripted to go wrong: what the peer offers has been fetched by now - before anything
+	// is announced (announcements would bring the missing blocks in by another path). A few rounds of slack as at the end.
+	if len(s.Nodes) == 1 && s.Nodes[0].Kind == "honest" && s.Nodes[0].DisconnectAtMsg == 0 && s.Nodes[0].DropAfterHeight == 0 && !s.Nodes[0].Silent &&
+		s.Nodes[0].VersionLag == 0 && s.SlowConvergeWaitSec == 0 && !s.DropNode0AfterSync && len(x.nodes[0].Live()) > 0 && res.Verdict == "held" {
+		for attempt := 0; attempt < 6 && !x.converged(); attempt++ {
+			time.Sleep(time.Duration(150*(attempt+1)) * time.Millisecond)
+			if !x.quiesce("initial sync, slack round") {
+				return
+			}
+		}
+		x.count("initial_syncs_judged_before_any_announcement", 1)
+		if !x.converged() {
+			tip := x.st.Svc.Headers.GetTip()
+			th := int32(-1)
+			if tip != nil {
+				th = tip.Height
+			}
+			x.fail("not-converged-before-any-announcement|"+x.class(), fmt.Sprintf("connected to a single honest peer whose best chain has %d blocks, at quiescence (nothing announced yet) the tip is at height %d and is not that chain's tip", len(x.w.Honest), th))
+		}
+	}
 	x.scenarioSpecificChecks("after-initial-sync")
 	// announcements
 	for ai, a := range s.Announce {
